@@ -80,6 +80,8 @@ class Conn:
         self._api("connect", addr)
         if self.closed:
             raise OSError(errno.EBADF, "closed")
+        if addr in self.world.refuse_addrs:
+            raise ConnectionRefusedError(errno.ECONNREFUSED, "connection refused")
         self.connected = True
         self.addr = addr
         self.world.on_connect(self)
@@ -176,6 +178,7 @@ class World:
         self.ledger = []
         self.api_count = {}
         self.plan = {}             # (api, k) -> exception ; k = occurrence index since arm()
+        self.refuse_addrs = set()  # addresses whose connect() is refused (a server that is down)
         self.plan_base = {}
         self.tag = None
         self.server = server       # callable(conn, data) -> list of reply events
